@@ -114,7 +114,7 @@ class Acc:
         if M.is_exempt_panic(msg):
             self.exempt["panic:" + M.msg_class(msg)] += 1
             return
-        key = M.panic_key(msg, loc)
+        key = M.panic_key(msg, loc, case)
         self.seen_keys[key] = self.seen_keys.get(key, 0) + 1
         if self.seen_keys[key] > 1:
             return
@@ -152,10 +152,10 @@ class Acc:
 
 def confirm(acc, key, case, what, msg, loc):
     o = M.run_single(case)
-    if o[0] == "panic" and M.panic_key(o[1], o[2]) == key:
+    if o[0] == "panic" and M.panic_key(o[1], o[2], case) == key:
         acc.viol.append((key, {"what": what, "case": case, "panic": {"msg": msg[:400], "loc": M.canon_loc(loc)}, "reproduced_in_fresh_worker": True}))
     elif o[0] == "panic" and not M.is_exempt_panic(o[1]):
-        k2 = M.panic_key(o[1], o[2])
+        k2 = M.panic_key(o[1], o[2], case)
         acc.viol.append((k2, {"what": what, "case": case, "panic": {"msg": o[1][:400], "loc": M.canon_loc(o[2])}, "first_seen_as": key,
                               "reproduced_in_fresh_worker": True}))
     else:
@@ -667,7 +667,7 @@ def task_cli(t):
             if M.is_exempt_panic(o[1]):
                 acc.exempt["panic:" + M.msg_class(o[1])] += 1
             else:
-                key = M.panic_key(o[1], o[2])
+                key = M.panic_key(o[1], o[2], case)
                 acc.seen_keys[key] = acc.seen_keys.get(key, 0) + 1
                 if acc.seen_keys[key] == 1:
                     o2 = M.run_cli_case(case)
@@ -757,7 +757,7 @@ def minimise(key, case):
     def same(c2):
         o = M.run_single(c2, m, timeout=10)
         if o[0] == "panic":
-            return M.panic_key(o[1], o[2]) == key
+            return M.panic_key(o[1], o[2], c2) == key
         if o[0] == "span":
             return M.span_key(o[1]) == key
         return False
@@ -869,7 +869,7 @@ def replay(run):
     o = M.run_single(case)
     print(f"replay {rp['key']}: outcome {o[:3]}")
     if o[0] == "panic" and not M.is_exempt_panic(o[1]):
-        run.violation(M.panic_key(o[1], o[2]), dict(w, replayed=True))
+        run.violation(M.panic_key(o[1], o[2], case), dict(w, replayed=True))
     elif o[0] == "span":
         run.violation(M.span_key(o[1]), dict(w, replayed=True))
     elif o[0] == "death" and o[1] not in EXEMPT_DEATHS:
